@@ -20,18 +20,24 @@ Key(msgs) == Join([i \in 1..Len(msgs) |-> msgs[i].text])
 
 MaxOf(S) == CHOOSE x \in S : \A y \in S : y <= x
 
-(* LLMRails._get_events_for_messages (Colang 1.0): longest proper prefix, p = len-1 .. 1, whose key
-   is in the cache; 0 = no hit.                                                                 *)
-HitP(dom, msgs) ==
-  LET ps == {p \in 1..(Len(msgs) - 1) : Key(SubSeq(msgs, 1, p)) \in dom}
+(* A cache entry is [src |-> the message list it was stored for (request + reply),
+                     ev  |-> the events, abstracted to the utterances they contain].
+   LLMRails._get_events_for_messages (Colang 1.0): longest proper prefix, p = len-1 .. 1, whose key
+   is in the cache; 0 = no hit.  The code looks at the key only (verify = FALSE); verify = TRUE is
+   the repaired design: an entry is used only if it was stored for exactly that prefix.          *)
+Usable(cache, msgs, p, verify) ==
+  LET k == Key(SubSeq(msgs, 1, p))
+  IN k \in DOMAIN cache /\ (verify => cache[k].src = SubSeq(msgs, 1, p))
+HitP(cache, msgs, verify) ==
+  LET ps == {p \in 1..(Len(msgs) - 1) : Usable(cache, msgs, p, verify)}
   IN IF ps = {} THEN 0 ELSE MaxOf(ps)
-HitKey(dom, msgs) == Key(SubSeq(msgs, 1, HitP(dom, msgs)))
+HitKey(cache, msgs, verify) == Key(SubSeq(msgs, 1, HitP(cache, msgs, verify)))
 (* the events a request is continued from: the cached events of the hit prefix followed by the
    remaining messages converted as they are                                                      *)
-Continue(cache, msgs) ==
-  LET p == HitP(DOMAIN cache, msgs)
+Continue(cache, msgs, verify) ==
+  LET p == HitP(cache, msgs, verify)
   IN IF p = 0 THEN msgs
-     ELSE cache[Key(SubSeq(msgs, 1, p))] \o SubSeq(msgs, p + 1, Len(msgs))
+     ELSE cache[Key(SubSeq(msgs, 1, p))].ev \o SubSeq(msgs, p + 1, Len(msgs))
 
 User(txt) == [role |-> "user", text |-> txt]
 Bot(txt)  == [role |-> "bot", text |-> txt]
